@@ -1,3 +1,4 @@
+import Props.C10Jwt
 import Model.Resource
 /-
   C10 — a protected resource is served iff the request carries an Authorization header of a
